@@ -417,6 +417,14 @@ type (
 	G2 struct{ inst }
 	// N1 has a custom New
 	N1 struct{ inst }
+	// N2 has a custom New that derives the instance from its receiver (to carry configuration), the way
+	// real generators do: `n := *g; return &n`
+	N2 struct {
+		inst
+		Config  string
+		emitted bool
+		count   int
+	}
 	// P1 is registered with pre-allocated reference state and has no custom New
 	P1 struct {
 		inst
@@ -433,6 +441,7 @@ func (*GX) Name() string { return "gx" }
 func (*G1) Name() string { return "g1" }
 func (*G2) Name() string { return "g2" }
 func (*N1) Name() string { return "n1" }
+func (*N2) Name() string { return "n2" }
 func (*P1) Name() string { return "p1" }
 func (*NA) Name() string { return "na" }
 func (*VM) Name() string { return "vm" }
@@ -480,6 +489,18 @@ func (g *P1) GenerateAliasType(c gengo.Context, a *types.Alias) error { return g
 
 func (g *N1) New(c gengo.Context) gengo.Generator { return &N1{} }
 
+func (g *N2) New(c gengo.Context) gengo.Generator { n := *g; return &n }
+
+func (g *N2) GenerateType(c gengo.Context, n *types.Named) error {
+	if !g.emitted {
+		g.emitted = true
+		c.Render(snippet.Block("func helper_n2() string { return \"" + g.Config + "\" }\n"))
+	}
+	g.count++
+	c.Render(snippet.Block(fmt.Sprintf("const Q_%s_n2 = %d\n", n.Obj().Name(), g.count)))
+	return g.generate("n2", c, n)
+}
+
 func newGen(name string) gengo.Generator {
 	switch name {
 	case "g":
@@ -492,6 +513,8 @@ func newGen(name string) gengo.Generator {
 		return &G2{}
 	case "n1":
 		return &N1{}
+	case "n2":
+		return &N2{Config: "configured"}
 	case "p1":
 		return &P1{Pre: map[string]bool{}}
 	case "na":
